@@ -496,7 +496,9 @@ class BaseDAG(Generic[P, RVDAG]):
         graph = self.graph_ids.make_subgraph(
             target_nodes=target_nodes, exclude_nodes=exclude_nodes, root_nodes=root_nodes
         )
+        return self._only_setup_nodes(graph)
 
+    def _only_setup_nodes(self, graph: DiGraphEx) -> DiGraphEx:
         # 3. remove non setup nodes
         graph.remove_nodes_from(
             [node_id for node_id in graph if node_id not in self.graph_ids.setup_nodes]
@@ -620,8 +622,9 @@ class DAG(BaseDAG[P, RVDAG]):
                 The user is responsible for ensuring that the overlapping between the target_nodes, the exclude_nodes
                 and the root nodes is logical.
         """
-        graph = self._pre_setup(target_nodes, exclude_nodes, root_nodes)
+        self._run_setup(self._pre_setup(target_nodes, exclude_nodes, root_nodes))
 
+    def _run_setup(self, graph: DiGraphEx) -> None:
         # 4. execute the graph and set the results to setup_results
         _, self.results, _ = sync_execute(
             exec_nodes=self.exec_nodes,
@@ -870,8 +873,9 @@ class AsyncDAG(BaseDAG[P, RVDAG]):
                 The user is responsible for ensuring that the overlapping between the target_nodes, the exclude_nodes
                 and the root nodes is logical.
         """
-        graph = self._pre_setup(target_nodes, exclude_nodes, root_nodes)
+        await self._run_setup(self._pre_setup(target_nodes, exclude_nodes, root_nodes))
 
+    async def _run_setup(self, graph: DiGraphEx) -> None:
         # 4. execute the graph and set the results to setup_results
         _, self.results, _ = await async_execute(
             exec_nodes=self.exec_nodes,
@@ -879,7 +883,6 @@ class AsyncDAG(BaseDAG[P, RVDAG]):
             max_concurrency=self.max_concurrency,
             graph=graph,
         )
-        return
 
     # TODO: refactor this with previous method
     async def run_subgraph(
@@ -1096,11 +1099,9 @@ class DAGExecution(BaseDAGExecution[P, RVDAG]):
     dag: DAG[P, RVDAG]
 
     def setup(self) -> None:
-        """Same thing as DAG.setup but `target_nodes` and `exclude_nodes` come from the DAGExecution's init."""
-        # TODO: handle the case where cache_deps_of is provided instead of target_nodes and exclude_nodes
-        #  in which case the deps_of might have a setup node themselves which should not run.
-        #  This is an edge case though that is not important to handle at the current moment.
-        self.dag.setup(target_nodes=self.target_nodes, exclude_nodes=self.exclude_nodes)
+        """Same thing as DAG.setup but runs the setup ExecNodes of the DAGExecution's own selection."""
+        # the selection was resolved to a graph of ids in __post_init__: resolving the ids again could match a tag
+        self.dag._run_setup(self.dag._only_setup_nodes(deepcopy(self.graph)))
 
     def __call__(self, *args: P.args, **kwargs: P.kwargs) -> RVDAG:
         """Call the DAG.
@@ -1131,11 +1132,9 @@ class AsyncDAGExecution(BaseDAGExecution[P, RVDAG]):
     dag: AsyncDAG[P, RVDAG]
 
     async def setup(self) -> None:
-        """Same thing as DAG.setup but `target_nodes` and `exclude_nodes` come from the DAGExecution's init."""
-        # TODO: handle the case where cache_deps_of is provided instead of target_nodes and exclude_nodes
-        #  in which case the deps_of might have a setup node themselves which should not run.
-        #  This is an edge case though that is not important to handle at the current moment.
-        await self.dag.setup(target_nodes=self.target_nodes, exclude_nodes=self.exclude_nodes)
+        """Same thing as DAG.setup but runs the setup ExecNodes of the DAGExecution's own selection."""
+        # the selection was resolved to a graph of ids in __post_init__: resolving the ids again could match a tag
+        await self.dag._run_setup(self.dag._only_setup_nodes(deepcopy(self.graph)))
 
     async def __call__(self, *args: P.args, **kwargs: P.kwargs) -> RVDAG:
         """Call the DAG.
